@@ -1445,5 +1445,7 @@ class AccessorEval:
             if isinstance(base, list):
                 base[_Expr(local, self)._index(t.slice)] = val
                 return
+            if base is None:
+                raise Raised("TypeError")  # 'NoneType' object does not support item assignment
             raise NotSymbolic("subscript store on a non-array")
         raise NotSymbolic("assignment target")
